@@ -554,10 +554,13 @@ PP_REFS = [("procedure(hook), pointer :: pp", "hook"), ("PROCEDURE(HOOK), POINTE
            ("procedure(nowhere), pointer :: pp", "nowhere"), ("integer :: pp", None)]
 
 
-def _pp_program(ra, rb, rz):
+def _pp_program(ra, rb, rz, rd="integer :: pp"):
     return ["module m", "abstract interface", "subroutine hook(n)", "integer :: n", "end subroutine hook", "end interface", rz, "contains",
             "subroutine sa()", ra, "contains", "subroutine hook(x)", "real :: x", "end subroutine hook", "end subroutine sa",
-            "subroutine sb()", rb, "end subroutine sb", "subroutine modonly()", "end subroutine modonly", "end module m"]
+            "subroutine sb()", rb, "end subroutine sb", "subroutine modonly()", "end subroutine modonly",
+            # a dummy procedure named like a module procedure, described by an interface block: the innermost declaration of that name
+            "subroutine sd(modonly)", "interface", "subroutine modonly(k)", "integer :: k", "end subroutine modonly", "end interface", rd,
+            "end subroutine sd", "end module m"]
 
 
 def pp_rule(scope, name):
@@ -565,6 +568,8 @@ def pp_rule(scope, name):
         return None
     if scope == "sa" and name == "hook":
         return ("sa", "hook", "FortranSubroutine")          # the internal procedure hides the host's abstract interface
+    if scope == "sd" and name == "modonly":
+        return ("sd", "modonly", "dummy argument")          # the dummy procedure hides the module procedure
     if name == "hook":
         return ("m", "hook", "absinterface")
     if name == "modonly":
@@ -579,6 +584,7 @@ def _pp_res(x):
 def _pp_observe(p):
     m = p.modules[0]
     sa, sb = m.subroutines[0], m.subroutines[1]
+    sd = [x for x in m.subroutines if str(x.name).lower() == "sd"][0]
     def proto(vs):
         vs = [v for v in vs if choice.apply(lambda n: str(n).lower(), v.name) == "pp"]
         if len(vs) != 1:
@@ -596,8 +602,12 @@ def _pp_observe(p):
             return None if x != "MISSING" else "MISSING"
         if any(x is a_ for a_ in absint):
             return ("m", str(x.name).lower(), "absinterface")
+        # the dummy procedure itself, or the interface body that describes it
+        if any(x is a_ or getattr(x, "procedure", None) is a_ for a_ in (getattr(getattr(x, "parent", None), "args", None) or [])):
+            return (_decl_scope(x), str(x.name).lower(), "dummy argument")
         return (_decl_scope(x), str(x.name).lower(), type(x).__name__)
-    return {"sa.pp": choice.apply(res, proto(sa.variables)), "sb.pp": choice.apply(res, proto(sb.variables)), "m.pp": choice.apply(res, proto(m.variables))}
+    return {"sa.pp": choice.apply(res, proto(sa.variables)), "sb.pp": choice.apply(res, proto(sb.variables)), "m.pp": choice.apply(res, proto(m.variables)),
+            "sd.pp": choice.apply(res, proto(sd.variables))}
 
 
 def replay_pp(w):
@@ -621,11 +631,12 @@ def pp_names(ctx):
         ra = CV.choice(E, "ra", PP_REFS)
         rb = CV.choice(E, "rb", PP_REFS)
         rz = CV.choice(E, "rz", PP_REFS)
+        rd = CV.choice(E, "rd", PP_REFS)
         want = {"sa.pp": choice.apply(lambda n: pp_rule("sa", n), ra[1]), "sb.pp": choice.apply(lambda n: pp_rule("sb", n), rb[1]),
-                "m.pp": choice.apply(lambda n: pp_rule("m", n), rz[1])}
-        E.e.snapshot = lambda m: {"slots": [choice.value_in_model(m, x)[0] for x in (ra, rb, rz)],
+                "m.pp": choice.apply(lambda n: pp_rule("m", n), rz[1]), "sd.pp": choice.apply(lambda n: pp_rule("sd", n), rd[1])}
+        E.e.snapshot = lambda m: {"slots": [choice.value_in_model(m, x)[0] for x in (ra, rb, rz, rd)],
                                   "expected": {k: (list(choice.value_in_model(m, v)) if choice.value_in_model(m, v) else None) for k, v in want.items()}}
-        obs = parserh.project({"a.f90": _pp_program(ra[0], rb[0], rz[0])}, post=_pp_observe, **SETTINGS)
+        obs = parserh.project({"a.f90": _pp_program(ra[0], rb[0], rz[0], rd[0])}, post=_pp_observe, **SETTINGS)
         E.reachable("correlated")
         for k in want:
             E.require(choice.apply(lambda g, w_: _pp_res(g) == w_, obs[k], want[k]), f"{k}: interface resolved to the wrong entity")
